@@ -335,8 +335,9 @@ def wDupSlash : PathPair := ⟨"slash", [[47, 97, 47, 47, 98]], [47, 97, 47, 47,
 /-- pattern `/%61`: target `/%61` matches, target `/a` does not -/
 def wPctEnc : PathPair := ⟨"pct", [[47, 37, 54, 49]], [47, 97], [47, 37, 54, 49], [47, 97], [47, 97]⟩
 
-/-- pattern `/sp%20ace` (no star): the request `/sp%20acex` matches — the lock-step loop stops
-    when the pattern is used up and ignores the rest of the path (a `path` line: p, e) -/
+/-- pattern `/sp%20ace` (no star): the request `/sp%20acex` matched before /repo 84b6e63 — the lock-step
+    loop stops when the pattern is used up and the rest of the path was ignored (now a regression
+    case in corpus/C06/escaped-pattern-rest.txt, no longer a witness line) -/
 def wEscRest : PathPair := ⟨"path", [[47, 115, 112, 37, 50, 48, 97, 99, 101]], [47, 115, 112, 32, 97, 99, 101], [47, 115, 112, 37, 50, 48, 97, 99, 101], [47, 115, 112, 32, 97, 99, 101, 120], [47, 115, 112, 37, 50, 48, 97, 99, 101, 120]⟩
 /-- pattern `/k%20*z`: `/k%20axz` matches, the equivalent `/k%20ax%7A` does not (span terminator
     searched in the raw text) -/
@@ -360,6 +361,6 @@ def PathPair.pathLine (w : PathPair) : String :=
 
 /-- counter-example lines replayed on the implementation on every run (see Witness.lean) -/
 def witnessLines : List String :=
-  [wDupSlash.line, wPctEnc.line, wEscRest.pathLine, wEscTerm.line, wEscTerm.pathLine, wEscDot.line, wEscDot.pathLine, wEscEnd.line]
+  [wDupSlash.line, wPctEnc.line, wEscTerm.line, wEscTerm.pathLine, wEscDot.line, wEscDot.pathLine, wEscEnd.line]
 
 end CaddyModel.C06
